@@ -11,8 +11,10 @@ struct Unit { std::string name; std::function<void()> run; };
 typedef std::vector<Unit> Units;
 
 // registration entry points implemented by the part TUs
-void i8_register_signed(Units& quick, Units& thorough);
-void i8_register_unsigned(Units& quick, Units& thorough);
+#define NK_I8_PARTS(X) X(sX) X(sW) X(sB) X(sR) X(sC) X(uX) X(uW) X(uB) X(uR) X(uC)
+#define NK_DECL(P) void i8_register_##P(Units& quick, Units& thorough);
+NK_I8_PARTS(NK_DECL)
+#undef NK_DECL
 void w16_case(); void w32_case(); void w64_case();
 void float_case_f(); void float_case_d(); void float_case_l();
 void gmp_case();
